@@ -12,6 +12,24 @@ TEXT = {
  "C02": ("fault_enumeration", "exhaustive drop masks over the first 4 (thorough 6) datagrams of each direction and all-kind masks over the first 2 (thorough 3) for 14 handshake variants, sampled masks beyond; completion + virtual-time bound + data exchange",
          "faults never modify bytes; liveness decided up to a 30 min virtual deadline; failures are minimised to a content-targeted fault plan for root-cause signatures",
          "exhaustive fault-mask enumeration + rapid sampling on a virtual network and clock; oracle = both succeed within the retransmission-schedule bound"),
+ "C03": ("exploration", "policy (6 client-auth modes, roots, server name, custom verifiers, PSK) x rogue deviation (no/foreign/expired/wrong-name certificate, signature by another key or over other bytes, missing CertificateVerify, wrong PSK, dropped messages) enumerated and sampled for both versions; the rogue is this library steered through the flight rewrite hook",
+         "deviations are a finite catalogue; each cell is paired with an honest control that must succeed, so 'rejected' is not vacuous",
+         "enumerated policy x deviation grid + rapid sampling through a build-tagged flight hook; oracle = no side whose policy was not met reports success (control cell must succeed)"),
+ "C04": ("exploration", "persistent man in the middle rewriting one handshake message on the wire (by message kind and occurrence: suite list edits, extension byte/drop/add, randoms, session id, key share, cookie, certificate bytes, random byte) for 1.2/1.3, full/PSK/resumed/client-auth, EMS on/off; forged Finished grid (verify_data bit flips, stale, from other transcript)",
+         "field-level rewriting needs the target message unfragmented in one epoch-0 record; protected handshake records get bit-level corruption under C05",
+         "enumerated MITM rewrite grid + rapid sampling on a virtual network; oracle = no endpoint that sent or received an altered message reports success; unaltered control must succeed"),
+ "C07": ("exploration", "sessions over all suites/versions with marker payloads and marker-bearing handshake fields; every emitted datagram scanned for clear-text markers, Finished verify_data, 1.3 post-ServerHello messages; unprotected application-data injection; exporter outputs compared against values computable from public data",
+         "markers detect verbatim leaks only; 'computable from public data' checked against a catalogue of public-input derivations, not all functions",
+         "property-based testing (rapid) with wire scanning via the independent decoder; oracle = marker absence, epoch>0 for application data, injected clear-text never delivered, exporter not derivable from hellos"),
+ "C08": ("exploration", "unauthenticated injection bursts (structured record/handshake/fragment generators, mutated genuine datagrams, junk) at every handshake trigger point for 1.2/1.3 client and server; correctly protected but malformed records from the authenticated peer built with the reference record layer (all suites incl. CBC padding grid, 1.3 post-handshake types); floods with heap measurement",
+         "absence of crashes is never established; memory judged by heap growth after GC; 'keeps serving' asserted only when every injected datagram was unparseable or unauthenticatable by construction",
+         "structured fuzzing through rapid generators + enumerated grids against live endpoints in a synctest bubble; oracle = no panic, no hang (wall watchdog reproduced on replay), no datagram storm, bounded heap, handshake and data still succeed"),
+ "C10": ("exploration", "reference implementations written from the RFCs (PRF, EMS, key block, verify_data, exporters, GCM/CCM/ChaCha/CBC records with RFC 9146 CID layouts, HKDF-Expand-Label, traffic keys, sequence-number masking, 1.3 AEAD) compared with the library on generated inputs, and a passive decoder that must decrypt, verify both Finished and reproduce the exporter of live sessions from the key log / secret hook alone",
+         "reference and library share crypto/aes, sha256, x/crypto chacha20poly1305 primitives; CCM and HKDF are re-implemented; RFC test vectors pin the references",
+         "differential property-based testing (rapid) against independent RFC reference implementations + live-session passive decoding; oracle = byte equality"),
+ "C11": ("exploration", "generated client/server policies (version ranges, suite lists, key types, curves, signature schemes, SRTP, ALPN, EMS modes, PSK hints, renegotiation-info) run live; negotiated outputs compared with a policy model; failure must come with an alert and no silent downgrade",
+         "policy model written from documented option semantics; where documentation is silent the model abstains (class 'unspecified')",
+         "property-based testing (rapid) over policy pairs against a negotiation model on a virtual network; oracle = every negotiated parameter inside both policies and highest common version"),
  "C05": ("exploration", "every suite x CID layout x direction: held genuine records, generated forgeries (all header/edge bit flips, field neighbour values, truncations, extensions, cross-session splices, recombinations) must vanish without effect and the genuine record must still be delivered once",
          "forger holds no keys; soundness of the AEAD/HMAC primitives assumed",
          "property-based testing (rapid) + exhaustive mutation grid per suite; oracle = vanish without effect (no read, no emission, no error, connection open) then genuine record accepted"),
